@@ -33,6 +33,18 @@ CHECKS = {
             "Trusted: vp/ref/hier.py (definitions), vp/ref/bspl.py Boehm insertion. For finite disparity the returned "
             "refined cells are taken as the actual marks.",
             "DESIGN.md section 2, C04"),
+    "C05": ("exploration",
+            "Hypothesis-generated nested knot-vector pairs and (coarse, fine) hierarchical-space pairs from generated "
+            "refinement histories; oracle = exact rational Boehm knot insertion and definition-based HB/THB bases",
+            "bspline.prolongation / knot_insertion / refine are compared with exact rational knot-insertion matrices "
+            "(p 0..8, repeated and coinciding knots); for generated refinement histories the TP level prolongators, the "
+            "virtual-hierarchy prolongators (HB and THB, composed from every virtual level), prolongate_to between a "
+            "history prefix and the full history, HSpace.boundary (cells, functions, index map, function identity on the "
+            "face) and HSplineFunc evaluation (values, gradients, Hessians, single point) are checked through the "
+            "identity B_fine P = B_coarse on a common finest tensor-product level. Sampling, not proof.",
+            "Trusted: vp/ref/bspl.py (exact Boehm), vp/ref/hier.py. One open known finding (THB virtual prolongators on "
+            ">= 3 levels) is matched only when pyiga still computes exactly the known-wrong formula.",
+            "DESIGN.md section 2, C05"),
     "C07": ("exploration",
             "Hypothesis-generated spline/NURBS/user/composed functions, points and operation arguments; oracle = "
             "independent tensor-product Cox-de Boor + quotient-rule reference and the documented formulas",
